@@ -35,3 +35,18 @@ func (fi *FileInfo) VerifXRef() map[uint32][2]int64 {
 	}
 	return res
 }
+
+// VerifGetTrailer runs getTrailer (the trailer MakeReader uses).
+func (fi *FileInfo) VerifGetTrailer() (Dict, error) {
+	return fi.getTrailer()
+}
+
+// VerifReadTrailer runs readTrailer on one section (method 2 of getTrailer).
+func (fi *FileInfo) VerifReadTrailer(sect *FileSection) (Dict, error) {
+	return fi.readTrailer(sect)
+}
+
+// VerifIsSourceFailure is getTrailer's classification of an error.
+func VerifIsSourceFailure(err error) bool {
+	return isSourceFailure(err)
+}
